@@ -8,8 +8,12 @@ package engine
 // Nothing here is compiled without the `verif` build tag.
 
 import (
+	"sort"
+
 	"github.com/openGemini/openGemini/lib/metaclient"
 	"github.com/openGemini/openGemini/lib/raftconn"
+	"github.com/openGemini/openGemini/lib/raftlog"
+	"github.com/openGemini/openGemini/lib/util/lifted/vm/protoparser/influx"
 )
 
 // VerifReadCommitFromRaft is readCommitFromRaft (returns when the node's commit channel is closed).
@@ -29,4 +33,20 @@ func VerifRaftEngine(db string, ptId uint32, node *raftconn.RaftNode) *EngineImp
 	pt.node = node
 	pt.proposeC = node.GetProposeC()
 	return &EngineImpl{DBPartitions: map[string]map[uint32]*DBPTInfo{db: {ptId: pt}}}
+}
+
+// WriteReplicated writes one batch the way the replication apply path does (EngineImpl.WriteRows
+// called from dealNormalData): the shard remembers the partition's SnapShotter, the rows go to the
+// memtable only (no binary rows, hence nothing in the shard's WAL).
+func (v *VerifShard) WriteReplicated(rows []influx.Row, snp *raftlog.SnapShotter) error {
+	for i := range rows {
+		sort.Sort(&rows[i].Tags)
+		sort.Sort(&rows[i].Fields)
+		rows[i].UnmarshalIndexKeys(nil)
+		rows[i].UnmarshalShardKeyByTag(nil)
+	}
+	if snp != nil {
+		v.sh.SetSnapShotter(snp)
+	}
+	return v.sh.WriteRows(rows, nil)
 }
